@@ -22,7 +22,7 @@ VER_ATTRS = [S('1.0.0'), S('1.9.0'), S('1.10.0'), S('2.0.0'), S('1.0.0-beta'), S
              S('1.0.0-1'), S('1.0.0-2'), S('1.0.0-10'), S('1.0.0+build5'), S('1.0.0-beta+exp.sha'), S('1.0'), S('v1.0.0'),
              S('1.0.0.'), S('01.0.0'), S('1.0.0-01'), S('1.0.0-'), S('1.0.0+'), S('18446744073709551615.0.0'),
              S('18446744073709551616.0.0'), S('1.0.0-a_b'), S('1..0'), S(' 1.0.0'), S('1.0.0-rc.1'), S('1.0.0-rc.1.1'), S('0.0.0')]
-STRINGER_ATTRS = [('str', b'abc'), ('str', b'ABC'), ('str', b'1.0.0'), ('str', b''), ('strptr', b'abc'), ('strpanic',), ('strnilptr',)]
+STRINGER_ATTRS = [('str', b'abc'), ('str', b'ABC'), ('str', b'1.0.0'), ('str', b''), ('strptr', b'abc'), ('strpanic',), ('strnilptr',), ('strselfpanic',)]
 MISC_ATTRS = [('nil',), ('b', True), ('b', False), ('m', []), ('m', [(b'a', I(1))]), ('nilmap',)] + [('o', t) for t in range(21)]
 ABSENT = ('absent',)   # pseudo value: key not in the object
 
